@@ -1,5 +1,6 @@
 """C12 — Config validation returns well-typed complete configs or rejects."""
 import copy
+import re
 from fractions import Fraction
 
 from hypothesis import strategies as st
@@ -470,8 +471,71 @@ def check_time(case):
     return Result(vio, classes, nontrivial)
 
 
+# ---- config players: the names of variables / events / score queues are part of the validated config -----------------
+NAME_OK = re.compile(r"[0-9a-zA-Z_-]+")
+_good = st.text(alphabet="abcXYZ019_-", min_size=1, max_size=6)
+_badch = st.sampled_from(list(".%/+!*&;@$^~=,'\"\\<>?#") + ["é", " ", "\t"])
+_name_alts = [
+    _good,
+    st.tuples(_good, _badch, st.one_of(st.just(""), _good)).map("".join),      # starts legal, illegal later
+    st.tuples(_badch, _good).map("".join),
+    st.tuples(_good, _badch).map("".join),
+]
+# (one_of drops repeated branches, so the weights are drawn explicitly: three of four names are legal)
+name_text = st.sampled_from([0] * 9 + [1, 2, 3]).flatmap(lambda i: _name_alts[i])
+cond_text = st.sampled_from(["", "", "{True}", "{1>0}", "{False}", "{2==2 and 1}"])
+player_entry = st.tuples(name_text, cond_text, st.sampled_from([1, 10, "5", "1|block"]))
+case_players = st.tuples(st.sampled_from(["variable_player", "event_player", "score_queue_player_player"]),
+                         st.lists(player_entry, min_size=1, max_size=4, unique_by=lambda e: e[0]),
+                         st.sampled_from(["dict", "list", "string"])).map(
+    lambda t: {"player": t[0], "entries": [list(e) for e in t[1]], "form": t[2]})
+
+
+def check_players(case):
+    """validate_config_entry of a config player either rejects or returns entries whose names are names: letters,
+    digits, dashes and underscores only (what its own error message states), one entry per provided name."""
+    m = rig().machine
+    player = getattr(m, case["player"])
+    entries = case["entries"]
+    keys = [e[0] + e[1] for e in entries]
+    if case["player"] == "event_player":
+        settings = {"dict": {k: {} for k in keys}, "list": list(keys), "string": ", ".join(keys)}[case["form"]]
+    else:
+        settings = {k: (e[2] if case["player"] == "variable_player" or not isinstance(e[2], str) or "|" not in e[2] else 3)
+                    for k, e in zip(keys, entries)}
+    legal = all(NAME_OK.fullmatch(e[0]) for e in entries)
+    classes = [case["player"], "all names legal" if legal else "illegal name"]
+    if any(e[1] for e in entries):
+        classes.append("conditional")
+    if not legal and any(NAME_OK.match(e[0]) and not NAME_OK.fullmatch(e[0]) for e in entries):
+        classes.append("illegal character after a legal start")
+    vio = []
+    try:
+        res = player.validate_config_entry(copy.deepcopy(settings), "verif_ctx")
+    except Exception as e:   # pylint: disable=broad-except
+        classes.append("rejected:" + type(e).__name__)
+        if legal and case["form"] != "string" and not (case["player"] == "event_player" and False):
+            # legal names with legal values: must be accepted
+            vio.append(violation("players:legal-entry-rejected", "%s.validate_config_entry(%r) raised %r although every name "
+                                 "consists of letters, digits, dashes and underscores" % (case["player"], settings, e)))
+    else:
+        classes.append("accepted")
+        bad = [k for k in res if not isinstance(k, str) or not NAME_OK.fullmatch(k)]
+        if bad:
+            vio.append(violation("players:ill-formed-name-accepted", "%s.validate_config_entry(%r) returned entries named %r: names "
+                                 "may only contain letters, numbers, dashes and underscores" % (case["player"], settings, bad)))
+        missing = [e[0] for e in entries if e[0] not in res]
+        # (the one-string form is split by Util.string_to_event_list, which treats every character that cannot be part of
+        # an event name as a separator: there the provided text does not determine the entries)
+        if missing and not bad and case["form"] != "string":
+            vio.append(violation("players:dropped-entry", "%s.validate_config_entry(%r) returned %r: the provided entries %r "
+                                 "are missing" % (case["player"], settings, sorted(res), missing)))
+    return Result(vio or None, classes, not legal or "conditional" in classes)
+
+
 SUBCHECKS = [
     SubCheck("sections", case_sections, check_sections, quick=24000, thorough=600000, procs_quick=10),
+    SubCheck("players", lambda: case_players, check_players, quick=3000, thorough=60000, procs_quick=2),
     SubCheck("time", lambda: case_time, check_time, quick=6000, thorough=200000, procs_quick=2,
              fuzz={"quick": 4000, "thorough": 300000, "modules": ['mpf.core.utility_functions', 'mpf.core.config_validator']}),
 ]
